@@ -33,6 +33,19 @@ def _txs(case):
         # stripped sizes 60..72 bytes (among them the 64 bytes of an inner merkle node), chosen by (i, salt)
         txs.append({'version': [1, 2, -1, -2 ** 31, 2 ** 31 - 1, 0][(i + salt // 3) % 6] if salt % 5 == 0 else 1, 'vin': [(H.dsha(b'%d/%d' % (salt, i)), i, bytes([0x51] * ((i + salt) % 7)), 0xffffffff - i)],
                     'vout': [(i, b'\x51' * ((i * 3 + salt // 7) % 7))], 'wit': wit, 'locktime': 0})
+    cb = case.get('cb', 0)
+    if cb:
+        # a coinbase-shaped first transaction: null prevout, optionally the BIP141 reserved value as its only witness item and
+        # a commitment-shaped output (all-zero "placeholder", or some value) - to the merkle trees it is a transaction like
+        # any other (txid of what it is; zero in the witness tree)
+        commit = b'\x6a\x24\xaa\x21\xa9\xed' + (bytes(32) if cb in (2, 4) else H.dsha(b'c%d' % salt))
+        outs = [(50 * 10 ** 8, b'\x51')] + ([(0, commit)] if cb >= 2 else [])
+        if cb == 4:
+            outs.reverse()
+        txs[0] = {'version': 1, 'vin': [(bytes(32), 0xffffffff, b'\x03' + bytes([salt % 256, 1, 2]), 0xffffffff)], 'vout': outs,
+                  'wit': [[bytes(32) if cb != 5 else H.dsha(b'r%d' % salt)]] if cb >= 2 else None, 'locktime': 0}
+    if case.get('big'):
+        txs[-1] = dict(txs[-1], vin=[(H.dsha(b'big'), 1, (b'\x51\x52\x53\x54' * (case['big'] // 4 + 1))[:case['big']], 5)])
     for dst, src in case.get('dups', []):
         txs[dst % n] = txs[src % n]
         if (dst + src + salt) % 3 == 0 and dst % n != 0:
@@ -66,6 +79,8 @@ def check_case(case):
     b = libx.call('construct', CBlock, vtx=vtx)[1]
     if b.hashMerkleRoot != root:
         raise Violation('root/filled-in', 'n=%d: zero declared root was filled with %s, reference %s' % (n, b.hashMerkleRoot.hex(), root.hex()))
+    if len(b.vtx) != n or any(o.serialize() != W.enc_tx(t) for t, o in zip(txs[:4] + txs[-1:], tuple(b.vtx[:4]) + tuple(b.vtx[-1:]))):
+        raise Violation('vtx/changed', 'n=%d: the transactions held by the constructed block are not the transactions given' % n)
     if libx.call('calc_merkle_root', b.calc_merkle_root)[1] != root:
         raise Violation('root/calc', 'n=%d: calc_merkle_root() != reference' % n)
     b2 = libx.call('construct-right', CBlock, hashMerkleRoot=root, vtx=vtx)[1]
@@ -142,7 +157,7 @@ def s_variant(draw, n):
             'wit_mask': draw(st.one_of(st.sampled_from([1, 2, (1 << 64) - 1, 1 << 63]), st.integers(0, (1 << 64) - 1))),
             'dups': draw(st.lists(st.tuples(st.integers(0, 400), st.integers(0, 400)), max_size=3)) if draw(st.booleans()) else
             ([[n - 1, n - 2]] if n >= 2 and draw(st.booleans()) else []),
-            'mutable_every': draw(st.sampled_from([0, 0, 1, 2, 3]))}
+            'mutable_every': draw(st.sampled_from([0, 0, 1, 2, 3])), 'cb': draw(st.sampled_from([0, 0, 0, 1, 2, 3, 4, 5]))}
 
 
 def t_every_n(ctx):
@@ -153,7 +168,13 @@ def t_every_n(ctx):
     # weight and size count it)
     for n in ctx.my([127, 128, 129, 252, 253, 254, 255, 256, 257]):
         ctx.hyp(s_variant(n), ctx.n(4, 12))
+    # more than a million bytes of transactions (a size some other rule cares about - not the merkle tree, not the weight)
+    for k, (n, big) in enumerate([(1, 1000000), (3, 1000100), (2, 1300000)]):
+        if k % ctx.nshards == ctx.shard:
+            for cb in (0, 2):
+                ctx.run({'n': n, 'salt': 77 + k, 'wit': bool(cb), 'wit_mask': 1, 'dups': [], 'mutable_every': 0, 'cb': cb, 'big': big})
     if ctx.shard == 0:
+        ctx.exhaustive.append('blocks of 1 / 3 / 2 transactions totalling 1.0 .. 1.3 million bytes')
         ctx.exhaustive.append('every transaction count n in %d..%d; 127..129 and 252..257 (CompactSize boundary of the count)' % (ns[0], 70 if ctx.quick else 300))
 
 
